@@ -161,7 +161,18 @@ def c14_4(ctx):
         out.append(ctx.ok(spec, "PBKDF2 passphrase = space-joined normalised words", c, mod, key="kdf-pass"))
     else:
         out.append(ctx.bad(spec, "PBKDF2 passphrase is `%s`, BIP39: the (normalised) mnemonic sentence" % a0, c, mod, key="kdf-pass"))
-    if a1 in ("b'mnemonic' + %s" % pw,):
+    rewrites = [st for st in ast.walk(fn) if isinstance(st, (ast.Assign, ast.AugAssign, ast.AnnAssign))
+                for t in (st.targets if isinstance(st, ast.Assign) else [st.target]) for x in ast.walk(t) if isinstance(x, ast.Name) and x.id == pw]
+    if rewrites:
+        st = rewrites[0]
+        v = st.value
+        calls_in_v = {call_name(x) for x in ast.walk(v) if isinstance(x, ast.Call)} if v is not None else set()
+        if calls_in_v & {"normalize", "strip", "lstrip", "rstrip", "lower", "upper", "casefold", "replace", "decode", "encode", "title"}:
+            out.append(ctx.bad(spec, "the passphrase is rewritten before it is used (`%s`): the salt is no longer b'mnemonic' + the passphrase given, so passphrases the "
+                                     "rewrite changes derive a different seed" % ast.unparse(st)[:100], st, mod, key="kdf-salt"))
+        else:
+            out.append(ctx.err(spec, "the passphrase parameter is reassigned (`%s`); cannot tell whether the salt still uses the bytes given" % ast.unparse(st)[:80], st, mod))
+    elif a1 in ("b'mnemonic' + %s" % pw,):
         out.append(ctx.ok(spec, "salt = 'mnemonic' ‖ password", c, mod, key="kdf-salt"))
     else:
         out.append(ctx.bad(spec, "PBKDF2 salt is `%s`, BIP39: b'mnemonic' + passphrase" % a1, c, mod, key="kdf-salt"))
@@ -281,12 +292,64 @@ def c14_6(ctx):
     return [rl.guard(ctx, spec, match, what="generated mnemonic must decode back to the generated entropy", key="self-check")]
 
 
+def c14_7(ctx):
+    """PBKDF2._setup keeps the key it is given: the bytes handed to the PRF on every round are the passphrase itself.  The only
+    rewrites that leave HMAC's output unchanged are the UTF-8 encoding of a str and HMAC's own rule (a key *strictly longer*
+    than the block size is replaced by its hash)"""
+    spec = "pbkdf2:PBKDF2._setup"
+    mod, fn = rl.get(ctx, spec)
+    pw = param_names(fn)[1]
+    parents = {}
+    for n in ast.walk(fn):
+        for ch in ast.iter_child_nodes(n):
+            parents[ch] = n
+    out = []
+    stores = [st for st in ast.walk(fn) if isinstance(st, ast.Assign) and any(isinstance(t, ast.Name) and t.id == pw for t in st.targets)]
+    kept = [st for st in ast.walk(fn) if isinstance(st, ast.Assign) and any(isinstance(t, ast.Attribute) and "passphrase" in t.attr for t in st.targets)]
+    if not kept:
+        raise AnalysisError("PBKDF2._setup: the passphrase is not stored")
+    for st in kept:
+        if not (isinstance(st.value, ast.Name) and st.value.id == pw):
+            out.append(ctx.err(spec, "stored key `%s` is not the passphrase parameter" % ast.unparse(st.value), st, mod))
+    for st in stores:
+        v = st.value
+        names = {call_name(x) for x in ast.walk(v) if isinstance(x, ast.Call)}
+        if isinstance(v, ast.Call) and call_name(v) == "encode" and isinstance(v.func, ast.Attribute) and isinstance(v.func.value, ast.Name) and v.func.value.id == pw:
+            out.append(ctx.ok(spec, "a str passphrase is encoded as UTF-8 (`%s`)" % ast.unparse(st), st, mod, key="key-kept:encode"))
+            continue
+        if names & {"digest", "hexdigest"} or any(isinstance(x, ast.Call) and isinstance(x.func, ast.Name) and x.func.id in ("digest", "sha512", "sha256", "sha1") for x in ast.walk(v)):
+            # key pre-hashing: the enclosing test must be `len(passphrase) > block size`
+            p = parents.get(st)
+            while p is not None and not isinstance(p, ast.If):
+                p = parents.get(p)
+            rels = []
+            if p is not None:
+                for c in ast.walk(p.test):
+                    r = rl.rel(c, lambda e: ast.unparse(e) == "len(%s)" % pw, lambda e: "block_size" in ast.unparse(e) or isinstance(e, ast.Constant))
+                    if r:
+                        rels.append((r, c))
+            if rels and all(r == ">" for r, _ in rels):
+                out.append(ctx.ok(spec, "a key longer than the block size is replaced by its hash, as HMAC does itself (`%s`)" % ast.unparse(rels[0][1]), st, mod, key="key-kept:prehash"))
+            elif rels and any(r in (">=", "==") for r, _ in rels):
+                out.append(ctx.bad(spec, "the key is replaced by its hash when `%s`: HMAC hashes only keys strictly longer than the block, so a passphrase (mnemonic sentence) of "
+                                         "exactly block-size bytes derives a different seed than PBKDF2-HMAC-SHA512" % ast.unparse(rels[0][1]), st, mod, key="key-kept:prehash"))
+            else:
+                out.append(ctx.err(spec, "the key is replaced by a hash (`%s`) under a condition that is not recognised" % ast.unparse(st)[:80], st, mod))
+            continue
+        out.append(ctx.err(spec, "the passphrase is rewritten (`%s`) before it is stored" % ast.unparse(st)[:80], st, mod))
+    if not any(o for o in out):
+        pass
+    out.append(ctx.ok(spec, "the key stored for the PRF is the passphrase parameter (%d rewrite(s) inspected)" % len(stores), kept[0], mod, key="key-kept"))
+    return out
+
+
 OBLIGATIONS = [
     ("C14.1", "GUARD", c14_1),
     ("C14.2", "TABLE derived", c14_2),
     ("C14.3", "DATA", c14_3),
     ("C14.4", "CALL binding", c14_4),
     ("C14.5", "LOOP count", c14_5),
+    ("C14.7", "DATAFLOW key kept", c14_7),
     ("C14.6", "GUARD", c14_6),
 ]
 FLOORS = {"C14.1": 3, "C14.2": 6, "C14.3": 6, "C14.4": 5, "C14.5": 2}
